@@ -11,7 +11,8 @@ Model of the 3-D dataset loader (`perception_eval/common/dataset.py`: `load_all_
 The nuScenes devkit is an EXTERNAL CONTRACT (DESIGN 4.6); what is modelled of it is its table
 semantics, checked against the real devkit on generated dataset directories by the harness:
 
-* `nusc.get(table, token)`            = the record of that table carrying the token (`KeyError` if none);
+* `nusc.get(table, token)`            = the LAST record of that table carrying the token (`_token2ind` is
+                                        filled by assignment in table order; `KeyError` if none);
 * `sample["anns"]`                    = the sample's annotations in annotation-table order;
 * `sample["data"][channel]`           = the LAST key-frame `sample_data` of the sample whose calibrated
                                         sensor's sensor has that channel (dict assignment in table order);
@@ -20,8 +21,18 @@ semantics, checked against the real devkit on generated dataset directories by t
 * `nusc.get_sample_data(sd)`          = those boxes moved by the inverse ego pose of `sd`, then by the
                                         inverse pose of `sd`'s calibrated sensor
                                         (`Box.translate(-t); Box.rotate(q.inverse)` twice);
-* `PredictHelper.get_past_for_agent(.., seconds=3.0, just_xy=False)` = walk along `prev`, keeping the
-                                        records less than 3.15 s back, at most 6 (`_iterate`).
+* `PredictHelper.get_sample_annotation(instance, sample)` = the LAST annotation of that sample and instance;
+* `PredictHelper.get_past_for_agent(.., seconds=3.0, just_xy=False)` = walk along `prev` from it, keeping the
+                                        records less than 3.15 s back, at most 6 (`_iterate`);
+* `NuScenes.box_velocity(token)`      = finite difference of the translations of the `prev` / `next`
+                                        annotations (the annotation itself where a side is missing) over the
+                                        difference of their sample times in float seconds; `nan` when both
+                                        sides are missing or the time difference exceeds 1.5 s (3 s centred);
+* `NuImages.get` / `nuim.object_ann`  = the same JSON tables (`sample`, `category`, `attribute`, `object_ann`).
+
+Float seconds: `1e-6 * timestamp` is an IEEE product, not a rational function of the timestamp; the
+harness hands its exact value in as `Sample.secs` (for timestamps that are multiples of 1/64 s it is
+`timestamp / 10^6` exactly). Everything computed from it is exact rational arithmetic.
 
 Numbers are exact rationals; full 3-D rotations are quaternions over ℚ acting through the
 homogeneous rotation-matrix formula (DESIGN 4.2). `Quaternion.inverse` is modelled by the conjugate
@@ -49,6 +60,8 @@ namespace Vec3
 def zero : Vec3 := ⟨0, 0, 0⟩
 def add (a b : Vec3) : Vec3 := ⟨a.x + b.x, a.y + b.y, a.z + b.z⟩
 def sub (a b : Vec3) : Vec3 := ⟨a.x - b.x, a.y - b.y, a.z - b.z⟩
+/-- numpy `v / k` -/
+def divBy (a : Vec3) (k : Rat) : Vec3 := ⟨a.x / k, a.y / k, a.z / k⟩
 end Vec3
 
 namespace Quat
@@ -60,6 +73,8 @@ def mul (p q : Quat) : Quat :=
    p.w * q.y - p.x * q.z + p.y * q.w + p.z * q.x,
    p.w * q.z + p.x * q.y - p.y * q.x + p.z * q.w⟩
 def conj (q : Quat) : Quat := ⟨q.w, -q.x, -q.y, -q.z⟩
+def zero : Quat := ⟨0, 0, 0, 0⟩
+def add (p q : Quat) : Quat := ⟨p.w + q.w, p.x + q.x, p.y + q.y, p.z + q.z⟩
 def normSq (q : Quat) : Rat := q.w * q.w + q.x * q.x + q.y * q.y + q.z * q.z
 end Quat
 
@@ -88,6 +103,7 @@ def moveInv (t : Vec3) (q : Quat) (p : Pose) : Pose :=
 structure Sample where
   token : String
   timestamp : Nat
+  secs : Rat             -- the float `1e-6 * timestamp` (exact value, see the header)
 deriving DecidableEq, Repr
 
 structure Sensor where
@@ -124,6 +140,7 @@ deriving DecidableEq, Repr
 structure Instance where
   token : String
   categoryToken : String
+  instanceName : String  -- T4 `instance_name` ("<scene>::<category>:<regulatory element id>"); "" if absent
 deriving DecidableEq, Repr
 
 structure Annotation where
@@ -136,7 +153,21 @@ structure Annotation where
   size : Vec3            -- (width, length, height), stored as x y z
   rotation : Quat
   prev : String          -- "" = none
+  next : String          -- "" = none
   numLidarPts : Nat
+deriving DecidableEq, Repr
+
+/-- a record of `object_ann.json` (2-D annotation on one camera image) -/
+structure ObjectAnn where
+  token : String
+  sampleDataToken : String
+  instanceToken : String
+  categoryToken : String
+  attributeTokens : List String
+  x0 : Rat               -- bbox = [xmin, ymin, xmax, ymax] as written in the JSON file
+  y0 : Rat
+  x1 : Rat
+  y1 : Rat
 deriving DecidableEq, Repr
 
 structure Tables where
@@ -150,13 +181,23 @@ structure Tables where
   visibility : List Named
   instances : List Instance
   annotations : List Annotation
+  objectAnns : List ObjectAnn := []
 deriving Repr
 
-/-- the requested configuration -/
+/-- the requested configuration of a 3-D task -/
 structure Config where
   tracking : Bool        -- `evaluation_task == EvaluationTask.TRACKING`
   frame : String         -- member name of `FrameID`
   merge : Bool           -- `merge_similar_labels`
+  fpValidation : Bool := false   -- `evaluation_task.is_fp_validation()` (`FP_VALIDATION`)
+deriving DecidableEq, Repr
+
+/-- the requested configuration of a 2-D task -/
+structure Config2D where
+  task : String          -- member name of `EvaluationTask`: DETECTION2D, TRACKING2D, CLASSIFICATION2D, FP_VALIDATION2D
+  family : String        -- `label_prefix`: "autoware" or "traffic_light"
+  merge : Bool           -- `merge_similar_labels`
+  frames : List String   -- member names of `FrameID`, in the order given
 deriving DecidableEq, Repr
 
 /-! ## the loader's outputs -/
@@ -164,6 +205,7 @@ deriving DecidableEq, Repr
 structure PastState where
   pose : Pose
   size : Vec3
+  velocity : Option Vec3       -- `nusc.box_velocity`; `none` = the all-`nan` vector
 deriving DecidableEq, Repr
 
 structure Obj where
@@ -177,6 +219,7 @@ structure Obj where
   frame : String
   time : Nat
   pose : Pose
+  velocity : Option Vec3       -- `_get_box_velocity`; `none` = Python `None`
   tracked : Option (List PastState)
 deriving DecidableEq, Repr
 
@@ -187,11 +230,37 @@ structure Frame where
   ego2map : Pose               -- the `BASE_LINK -> MAP` matrix stored with the frame
 deriving DecidableEq, Repr
 
+/-- `Roi((xmin, ymin, width, height))` -/
+structure Roi where
+  x : Int
+  y : Int
+  w : Int
+  h : Int
+deriving DecidableEq, Repr
+
+structure Obj2D where
+  uuid : String
+  label : String               -- member name of `AutowareLabel` / `TrafficLightLabel`
+  name : String
+  attributes : List String
+  roi : Option Roi
+  frame : String               -- member name of `FrameID` (a camera)
+  time : Nat
+deriving DecidableEq, Repr
+
+structure Frame2D where
+  unixTime : Nat
+  frameName : String
+  objects : List Obj2D
+  ego2map : Option Pose        -- `none`: no requested camera has data in the sample (`transforms=None`)
+deriving DecidableEq, Repr
+
 /-! ## generic helpers -/
 
-/-- `nusc.get(table, token)` -/
+/-- `nusc.get(table, token)`: the index `_token2ind[table][token]` is built by assignment in table
+order, so the LAST record carrying the token answers -/
 def lookup {α} (tok : α → String) (tbl : List α) (t : String) : Except Err α :=
-  match tbl.find? (fun r => tok r == t) with
+  match tbl.reverse.find? (fun r => tok r == t) with
   | some r => .ok r
   | none => .error "KeyError"
 
@@ -211,12 +280,24 @@ def mapE {α β} (f : α → Except Err β) : List α → Except Err (List β)
 def pairTable (merge : Bool) : List (String × String) :=
   if merge then Gen.autowarePairsMerged else Gen.autowarePairs
 
-/-- `LabelConverter.convert_label(name).label` for the `autoware` prefix: lower-case, first match,
-unknown fallback -/
-def convertLabel (merge : Bool) (name : String) : String :=
-  match (pairTable merge).find? (fun p => name.toLower == p.2) with
+/-- `LabelConverter.convert_label(name).label`: lower-case, first match, `UNKNOWN` fallback -/
+def convertWith (table : List (String × String)) (name : String) : String :=
+  match table.find? (fun p => name.toLower == p.2) with
   | some p => p.1
   | none => "UNKNOWN"
+
+/-- … for the `autoware` prefix -/
+def convertLabel (merge : Bool) (name : String) : String := convertWith (pairTable merge) name
+
+/-- `_get_traffic_light_paris(evaluation_task)`: the classification table or the other one -/
+def trafficLightTable (task : String) : List (String × String) :=
+  match Gen.trafficLightTableOfTask.find? (fun p => p.1 == task) with
+  | some (_, "classification") => Gen.trafficLightPairsClassification
+  | _ => Gen.trafficLightPairsOther
+
+/-- the pair list of `LabelConverter(task, merge, label_prefix)` -/
+def pairTable2D (cfg : Config2D) : List (String × String) :=
+  if cfg.family = "traffic_light" then trafficLightTable cfg.task else pairTable cfg.merge
 
 /-- `Visibility.from_value(level)` never raises (alias table, then the fallback member) -/
 def visibilityOfLevel (level : String) : String :=
@@ -259,6 +340,74 @@ def boxPose (frame : String) (ego : EgoPose) (cs : CalibratedSensor) (a : Annota
   else if frame = "MAP" then .ok (annPose a)
   else .error "ValueError"
 
+/-- `frame_id_.value.upper()` of a `FrameID` member -/
+def cameraType (frame : String) : String :=
+  match Gen.frameID.find? (fun p => p.1 == frame) with
+  | some p => p.2.toUpper
+  | none => frame
+
+/-- Python `needle in haystack` on strings -/
+def containsSub : List Char → List Char → Bool
+  | [], sub => sub.isEmpty
+  | c :: cs, sub => sub.isPrefixOf (c :: cs) || containsSub cs sub
+
+/-- `"CAM_TRAFFIC_LIGHT" in sensor_frame_id.value.upper()` -/
+def isTlrCamera (member : String) : Bool :=
+  containsSub (cameraType member).toList "CAM_TRAFFIC_LIGHT".toList
+
+/-- `tlr_avg_quat`: the calibrated rotations of the traffic-light cameras, in table order -/
+def tlrRotations (T : Tables) (frames : List String) : List Quat :=
+  (T.calibratedSensors.zip frames).filterMap (fun p => if isTlrCamera p.2 then some p.1.rotation else none)
+
+/-- the loop of `_get_transforms` over `nusc.calibrated_sensor`: every calibrated sensor's sensor must
+resolve (`KeyError`) and its channel must be a `FrameID` value (`FrameID.from_value`: `ValueError`);
+the result lists the source frames of the sensor→ego matrices. Afterwards the rotations of the
+traffic-light cameras are averaged, `sum(tlr_avg_quat) / sum(tlr_avg_quat).norm`: when they sum to the
+zero quaternion (e.g. two cameras calibrated `q` and `-q`, the same rotation) the division raises
+`ZeroDivisionError` (known finding C16-N1). -/
+def sensorFrames (T : Tables) : Except Err (List String) :=
+  match mapE (fun cs =>
+    match lookup Sensor.token T.sensors cs.sensorToken with
+    | .error e => .error e
+    | .ok s => Enums.frameFromValue s.channel) T.calibratedSensors with
+  | .error e => .error e
+  | .ok frames =>
+    if !(tlrRotations T frames).isEmpty && (tlrRotations T frames).foldl Quat.add Quat.zero == Quat.zero
+    then .error "ZeroDivisionError" else .ok frames
+
+/-! ## velocities (`_get_box_velocity` of perception_eval, `NuScenes.box_velocity` of the devkit) -/
+
+def secsOf (T : Tables) (sampleToken : String) : Except Err Rat :=
+  (lookup Sample.token T.samples sampleToken).map (·.secs)
+
+/-- `max_time_diff` (1.5 s), doubled for the centred difference -/
+def maxTimeDiff (cur : Annotation) : Rat := if cur.prev != "" && cur.next != "" then 3 else 3 / 2
+
+/-- Both functions: no neighbour at all → no estimate; otherwise `first` = the `prev` record (or the
+annotation itself), `last` = the `next` record (or itself), the difference of their translations over
+the difference of their sample times in seconds, and no estimate when that time difference exceeds
+`maxTimeDiff`. `objectFrame = true` is `_get_box_velocity`: the displacement is expressed in the
+axes of `first` (`np.linalg.inv(object2map)` — the translation row written to `object2map[3, :3]`
+does not reach the first three components); `false` is the devkit's `box_velocity` (global axes). -/
+def velocityOf (T : Tables) (objectFrame : Bool) (cur : Annotation) : Except Err (Option Vec3) :=
+  if cur.prev == "" && cur.next == "" then .ok none
+  else
+    match (if cur.prev == "" then .ok cur else lookup Annotation.token T.annotations cur.prev) with
+    | .error e => .error e
+    | .ok first =>
+      match (if cur.next == "" then .ok cur else lookup Annotation.token T.annotations cur.next) with
+      | .error e => .error e
+      | .ok last =>
+        match secsOf T last.sampleToken with
+        | .error e => .error e
+        | .ok tl =>
+          match secsOf T first.sampleToken with
+          | .error e => .error e
+          | .ok tf =>
+            let d := last.translation.sub first.translation
+            let d := if objectFrame then rotate first.rotation.conj d else d
+            .ok (if tl - tf ≤ maxTimeDiff cur then some (d.divBy (tl - tf)) else none)
+
 /-! ## tracking history (`PredictHelper._iterate`, direction `prev`, `seconds = 3.0`) -/
 
 /-- `seconds + BUFFER` in microseconds -/
@@ -289,18 +438,34 @@ def iterate (T : Tables) (start : Nat) : Nat → Annotation → Nat → List Ann
             iterate T start fuel nxt el (if el < windowUs then acc ++ [nxt] else acc)
     else .ok acc
 
-/-- `helper.get_past_for_agent(instance, sample, 3.0, _, just_xy=False)` for the annotation itself -/
-def pastRecords (T : Tables) (a : Annotation) : Except Err (List Annotation) :=
-  match timeOf T a.sampleToken with
-  | .error e => .error e
-  | .ok t0 => iterate T t0 T.annotations.length a 0 []
+/-- `helper.get_sample_annotation(instance_token, sample_token)`: `inst_sample_to_ann` is filled by
+assignment in table order, so the LAST annotation of that sample and instance answers -/
+def startOf (T : Tables) (a : Annotation) : Except Err Annotation :=
+  match T.annotations.reverse.find? (fun b => b.sampleToken == a.sampleToken && b.instanceToken == a.instanceToken) with
+  | some b => .ok b
+  | none => .error "KeyError"
 
-def pastState (a : Annotation) : PastState := ⟨annPose a, a.size⟩
+/-- `helper.get_past_for_agent(instance, sample, 3.0, _, just_xy=False)` for the annotation's instance
+and sample -/
+def pastRecords (T : Tables) (a : Annotation) : Except Err (List Annotation) :=
+  match startOf T a with
+  | .error e => .error e
+  | .ok st =>
+    match timeOf T st.sampleToken with
+    | .error e => .error e
+    | .ok t0 => iterate T t0 T.annotations.length st 0 []
+
+/-- one entry of the history: the record's global pose and size, and `nusc.box_velocity(record)` -/
+def pastStateOf (T : Tables) (r : Annotation) : Except Err PastState :=
+  (velocityOf T false r).map (fun v => ⟨annPose r, r.size, v⟩)
 
 /-- `_get_tracking_data` when the task is TRACKING, else `None` (its own frame-id test cannot fail:
 `_get_sample_boxes` has already rejected any frame id but BASE_LINK and MAP) -/
 def trackedOf (T : Tables) (cfg : Config) (a : Annotation) : Except Err (Option (List PastState)) :=
-  if cfg.tracking then (pastRecords T a).map (fun l => some (l.map pastState))
+  if cfg.tracking then
+    match pastRecords T a with
+    | .error e => .error e
+    | .ok recs => (mapE (pastStateOf T) recs).map some
   else .ok none
 
 /-! ## one object, one frame, the dataset -/
@@ -316,8 +481,15 @@ def categoryNameOf (T : Tables) (a : Annotation) : Except Err String := do
   let cat ← lookup Named.token T.categories inst.categoryToken
   pure cat.name
 
+def attributeNamesOfTokens (T : Tables) (tokens : List String) : Except Err (List String) :=
+  mapE (fun t => (lookup Named.token T.attributes t).map (·.name)) tokens
+
 def attributeNamesOf (T : Tables) (a : Annotation) : Except Err (List String) :=
-  mapE (fun t => (lookup Named.token T.attributes t).map (·.name)) a.attributeTokens
+  attributeNamesOfTokens T a.attributeTokens
+
+/-- `if evaluation_task.is_fp_validation() and semantic_label.is_fp() is False: raise ValueError` -/
+def fpCheck (cfg : Config) (label : String) : Except Err Unit :=
+  if cfg.fpValidation && label != "FP" then .error "ValueError" else .ok ()
 
 /-- the loop body of `_sample_to_frame` + `_convert_nuscenes_box_to_dynamic_object` -/
 def objectOf (T : Tables) (cfg : Config) (time : Nat) (ego : EgoPose) (cs : CalibratedSensor)
@@ -326,10 +498,12 @@ def objectOf (T : Tables) (cfg : Config) (time : Nat) (ego : EgoPose) (cs : Cali
   let vis ← visibilityOf T a
   let attrs ← attributeNamesOf T a
   let name ← categoryNameOf T a
+  let _ ← fpCheck cfg (convertLabel cfg.merge name)
+  let vel ← velocityOf T true a
   let tracked ← trackedOf T cfg a
   pure { uuid := a.instanceToken, label := convertLabel cfg.merge name, name := name, attributes := attrs,
          size := a.size, points := a.numLidarPts, visibility := vis, frame := cfg.frame, time := time,
-         pose := pose, tracked := tracked }
+         pose := pose, velocity := vel, tracked := tracked }
 
 /-- `_sample_to_frame(nusc, helper, sample_token, task, converter, frame_id, frame_name=str(n))` -/
 def sampleToFrame (T : Tables) (cfg : Config) (n : Nat) (s : Sample) : Except Err Frame := do
@@ -338,6 +512,7 @@ def sampleToFrame (T : Tables) (cfg : Config) (n : Nat) (s : Sample) : Except Er
   if cfg.frame = "BASE_LINK" ∨ cfg.frame = "MAP" then
     let ego ← lookup EgoPose.token T.egoPoses sd.egoPoseToken
     let cs ← lookup CalibratedSensor.token T.calibratedSensors sd.calibratedSensorToken
+    let _ ← sensorFrames T
     let objs ← mapE (objectOf T cfg s.timestamp ego cs) (annsOf T s.token)
     pure { unixTime := s.timestamp, frameName := toString n, objects := objs,
            ego2map := ⟨ego.translation, ego.rotation⟩ }
@@ -358,5 +533,146 @@ def loadFrom (T : Tables) (cfg : Config) : Nat → List Sample → Except Err (L
 def loadDataset (T : Tables) (cfg : Config) : Except Err (List Frame) :=
   if T.samples.isEmpty then .error "DatasetLoadingError"
   else loadFrom T cfg 0 T.samples
+
+/-! ## 2-D tasks (`_sample_to_frame_2d`) -/
+
+/-- Python `int(x)` of a JSON number: truncation toward zero -/
+def truncInt (r : Rat) : Int := if 0 ≤ r then r.floor else -((-r).floor)
+
+/-- `roi = (int(b0), int(b1), int(b2) - int(b0), int(b3) - int(b1))` for DETECTION2D / TRACKING2D, else `None` -/
+def roiOf (task : String) (o : ObjectAnn) : Option Roi :=
+  if task = "DETECTION2D" ∨ task = "TRACKING2D" then
+    some ⟨truncInt o.x0, truncInt o.y0, truncInt o.x1 - truncInt o.x0, truncInt o.y1 - truncInt o.y0⟩
+  else none
+
+/-- the first loop of `_sample_to_frame_2d`: the requested frame ids that have key-frame data in the
+sample, with that `sample_data` record, in the order requested -/
+def camerasOf (T : Tables) (sampleToken : String) (frames : List String) : List (String × SampleData) :=
+  frames.filterMap (fun f => (dataOf T sampleToken (cameraType f)).map (fun sd => (f, sd)))
+
+/-- `_get_transforms(nusc, sample_data_token)` is run for every camera found; the LAST one's result is kept -/
+def transforms2D (T : Tables) : List (String × SampleData) → Option Pose → Except Err (Option Pose)
+  | [], acc => .ok acc
+  | (_, sd) :: rest, _ =>
+    match lookup EgoPose.token T.egoPoses sd.egoPoseToken with
+    | .error e => .error e
+    | .ok ego =>
+      match sensorFrames T with
+      | .error e => .error e
+      | .ok _ => transforms2D T rest (some ⟨ego.translation, ego.rotation⟩)
+
+/-- `frame_id_mapping[token]`: the dict is filled in request order, the last assignment wins -/
+def frameOfToken (cams : List (String × SampleData)) (sdToken : String) : Option String :=
+  (cams.reverse.find? (fun c => c.2.token == sdToken)).map (·.1)
+
+/-- `[ann for ann in nuim.object_ann if ann["sample_data_token"] in sample_data_tokens]` -/
+def objectAnnsOf (T : Tables) (cams : List (String × SampleData)) : List ObjectAnn :=
+  T.objectAnns.filter (fun o => (cams.map (·.2.token)).contains o.sampleDataToken)
+
+/-- the characters after the last `':'` (`acc`: the current segment, reversed) -/
+def lastSegmentChars : List Char → List Char → List Char
+  | [], acc => acc.reverse
+  | c :: cs, acc => if c == ':' then lastSegmentChars cs [] else lastSegmentChars cs (c :: acc)
+
+/-- `instance_name.split(":")[-1]` -/
+def lastSegment (s : String) : String := String.ofList (lastSegmentChars s.toList [])
+
+/-- the traffic-light uuid: the regulatory-element id of the FIRST instance record with the token
+(`for instance_record in nusc.instance: if … : … break`); when none matches, Python keeps the value
+`uuid` had in the previous iteration (`stale`), and the very first iteration raises `UnboundLocalError` -/
+def tlrUuid (T : Tables) (stale : Option String) (o : ObjectAnn) : Except Err String :=
+  match T.instances.find? (fun i => i.token == o.instanceToken) with
+  | some i => .ok (lastSegment i.instanceName)
+  | none =>
+    match stale with
+    | some u => .ok u
+    | none => .error "UnboundLocalError"
+
+/-- one iteration of the annotation loop of `_sample_to_frame_2d` -/
+def object2DOf (T : Tables) (cfg : Config2D) (time : Nat) (cams : List (String × SampleData))
+    (stale : Option String) (o : ObjectAnn) : Except Err Obj2D :=
+  match lookup Named.token T.categories o.categoryToken with
+  | .error e => .error e
+  | .ok cat =>
+    match attributeNamesOfTokens T o.attributeTokens with
+    | .error e => .error e
+    | .ok attrs =>
+      match (if cfg.family = "traffic_light" then tlrUuid T stale o else .ok o.instanceToken) with
+      | .error e => .error e
+      | .ok uuid =>
+        match frameOfToken cams o.sampleDataToken with
+        | none => .error "KeyError"
+        | some fr =>
+          .ok { uuid := uuid, label := convertWith (pairTable2D cfg) cat.name, name := cat.name,
+                attributes := attrs, roi := roiOf cfg.task o, frame := fr, time := time }
+
+/-- the annotation loop; `stale` is the Python variable `uuid` surviving from the previous iteration -/
+def objects2DLoop (T : Tables) (cfg : Config2D) (time : Nat) (cams : List (String × SampleData)) :
+    Option String → List ObjectAnn → Except Err (List Obj2D)
+  | _, [] => .ok []
+  | stale, o :: rest =>
+    match object2DOf T cfg time cams stale o with
+    | .error e => .error e
+    | .ok obj =>
+      match objects2DLoop T cfg time cams (some obj.uuid) rest with
+      | .error e => .error e
+      | .ok objs => .ok (obj :: objs)
+
+/-- the distinct elements in order of first occurrence (a canonical enumeration of Python's `set(xs)`) -/
+def dedupFirst : List String → List String
+  | [] => []
+  | x :: l => x :: (dedupFirst l).filter (fun y => y != x)
+
+/-- `_merge_duplicated_traffic_lights` for one uuid: all candidates' labels equal → the first
+candidate's label; otherwise exactly two distinct labels are allowed (`AssertionError`) and the
+first candidate whose label is not UNKNOWN is taken -/
+def mergeOne (time : Nat) (objs : List Obj2D) (uuid : String) : Except Err Obj2D :=
+  let cands := objs.filter (fun o => o.uuid == uuid)
+  match cands with
+  | [] => .error "IndexError"
+  | c0 :: _ =>
+    let pick : Except Err Obj2D :=
+      if cands.all (fun c => c.label == c0.label) then .ok c0
+      else if (dedupFirst (cands.map (·.label))).length = 2 then
+        match cands.find? (fun c => c.label != "UNKNOWN") with
+        | some c => .ok c
+        | none => .error "IndexError"
+      else .error "AssertionError"
+    pick.map (fun c => { uuid := uuid, label := c.label, name := c.name, attributes := c.attributes,
+                         roi := none, frame := "CAM_TRAFFIC_LIGHT", time := time })
+
+/-- `_merge_duplicated_traffic_lights`: Python iterates over `set(uuids)` whose order is unspecified;
+the model answers in order of first occurrence (the harness compares up to order) -/
+def mergeTrafficLights (time : Nat) (objs : List Obj2D) : Except Err (List Obj2D) :=
+  mapE (mergeOne time objs) (dedupFirst (objs.map (·.uuid)))
+
+/-- `_sample_to_frame_2d(nusc, nuim, sample_token, task, converter, frame_ids, frame_name=str(n))` -/
+def sampleToFrame2D (T : Tables) (cfg : Config2D) (n : Nat) (s : Sample) : Except Err Frame2D :=
+  let cams := camerasOf T s.token cfg.frames
+  match transforms2D T cams none with
+  | .error e => .error e
+  | .ok tf =>
+    match objects2DLoop T cfg s.timestamp cams none (objectAnnsOf T cams) with
+    | .error e => .error e
+    | .ok objs =>
+      match (if cfg.family = "traffic_light" ∧ cfg.task = "CLASSIFICATION2D"
+             then mergeTrafficLights s.timestamp objs else .ok objs) with
+      | .error e => .error e
+      | .ok objs' => .ok { unixTime := s.timestamp, frameName := toString n, objects := objs', ego2map := tf }
+
+def loadFrom2D (T : Tables) (cfg : Config2D) : Nat → List Sample → Except Err (List Frame2D)
+  | _, [] => .ok []
+  | n, s :: rest =>
+    match sampleToFrame2D T cfg n s with
+    | .error e => .error e
+    | .ok f =>
+      match loadFrom2D T cfg (n + 1) rest with
+      | .error e => .error e
+      | .ok fs => .ok (f :: fs)
+
+/-- `load_all_datasets([path], task, converter, frame_ids)` for a 2-D task -/
+def loadDataset2D (T : Tables) (cfg : Config2D) : Except Err (List Frame2D) :=
+  if T.samples.isEmpty then .error "DatasetLoadingError"
+  else loadFrom2D T cfg 0 T.samples
 
 end PEval.Dataset
